@@ -46,14 +46,30 @@ LEVEL_NOTE = ("Model = RxModel/Comb.lean + RxModel/CombHO.lean (merge_all_: grou
 "merge_completes_maxc_state is its state-level reading), concat_map_ordered (the only live inner is the most recently subscribed one) and concat_map_blocks (the explicit "
 "block decomposition of the output). Nothing is partial. Inners that notify inside subscribe are compared on outputs and effect order except the position of their own "
 "unsubscribe (time only). Re-entrant outer emissions (consumer feedback while an inner is inside subscribe) ARE replayed through the machines. Oracle-only: second-subscriber "
-"cases (incl. rx.merge). "
+"cases (incl. rx.merge). Outers that emit and complete synchronously inside subscribe are generated for every operator (every unsubscribe of such a case is compared by "
+"(source, time) only; runs in which the outer goes on delivering after the result ended are oracle-only: a source inside its own subscribe cannot be stopped, the flat "
+"machine closes it at the terminal). The same observable object delivered / listed twice (rx.merge(xs, ys, xs)) gets one trace id per subscription; rx.merge must merge every "
+"listed source. A few cases per run use max_concurrent 257..300 with more overlapping inners than that. An exception escaping into the scheduler is recorded as an output "
+"('X'), never a harness error. "
 "Threads are C43.")
 
 OPS = ["merge_all", "merge", "merge", "flat_map", "flat_map_indexed", "concat_map", "rx_merge", "merge"]
 
 
+def large_limit_case(rng):
+    """max_concurrent above CPython's small-int cache (257..300) with limit+k overlapping single-element inners"""
+    limit = rng.randint(257, 300)
+    m = limit + rng.randint(1, 5)
+    outer = {"mode": "cold", "msgs": [[rng.choice([0, 0, 5]), "N", i] for i in range(1, m + 1)] + [[10, "C"]]}
+    outer["msgs"].sort(key=lambda x: x[0])
+    inners = {str(i): {"mode": "cold", "msgs": [[50, "N", fw.enc((i, 0, 1))], [50 + 5 * rng.randint(0, 2), "C"]]} for i in range(1, m + 1)}
+    return {"op": "merge", "maxc": limit, "outer": outer, "inners": inners, "dispose": None}
+
+
 def cases(rng, tier):
     n = fw.tier_scale(tier, 4000, 60000)
+    for _ in range(fw.tier_scale(tier, 3, 12)):
+        yield large_limit_case(rng)
     for i in range(n):
         op = OPS[i % len(OPS)]
         if rng.random() < 0.1:
@@ -65,7 +81,7 @@ def cases(rng, tier):
             yield c
             continue
         # inners that take their scheduler from the subscription (rx.timer without a scheduler) - also as QUEUED inners
-        c = cc.gen_ho_case(rng, op, p_timer=0.3)
+        c = cc.gen_ho_case(rng, op, p_timer=0.3, p_same=0.5 if op == "rx_merge" else 0.2)
         if op == "merge":
             c["maxc"] = rng.choice([1, 1, 2, 2, 3, 4])
         if op == "rx_merge":
@@ -90,6 +106,8 @@ def model_request(case):
     if "second" in case:
         return None
     log, _ = cc.run_ho(case)
+    if cc.outer_delivers_after_end(case, log):
+        return None
     sp = cc.split_log(log, cc.sync_ids_of(case))
     r = cc.ho_model_op(case)
     r["events"] = [e for _, e in sp["events"]]
@@ -122,13 +140,17 @@ def oracle(case, out):
     if not cc.grammar_ok(got):
         return f"output is not next* terminal?: {got}"
     acc = cc.accepted(log)
+    # nothing counts after the result ended (a synchronous outer that cannot be stopped inside its own subscribe may go on delivering)
+    end_pos = next((p_ for p_, e_ in enumerate(log) if e_[0] == "dispose" or (e_[0] == "out" and e_[1][0] != "N")), len(log))
+    acc = [a_ for a_ in acc if a_[0] < end_pos]
     outs = cc.out_entries(log)
     maxc = maxc_of(case)
     # (1) exactly the accepted inner elements, each inner's in order, each at the time (and inside the handler) of its arrival
     inner_ids = sorted({s for (_, s, _, _) in acc if s != 0} | {cc.sid_of_value(n[1]) for (_, n, _) in outs if n[0] == "N"})
     for k in inner_ids:
-        want = [[t, nt[1]] for (_, s, nt, t) in acc if s == k and nt[0] == "N"]
-        have = [[t, nt[1]] for (_, nt, t) in outs if nt[0] == "N" and cc.sid_of_value(nt[1]) == k]
+        grp = cc.same_group(case, k)       # subscriptions of one and the same observable object deliver the same values
+        want = [[t, nt[1]] for (_, s, nt, t) in acc if s in grp and nt[0] == "N"]
+        have = [[t, nt[1]] for (_, nt, t) in outs if nt[0] == "N" and cc.sid_of_value(nt[1]) in grp]
         if want != have:
             return f"inner {k}: delivered {want} but output has {have}"
     # every output element directly follows the notification that carries it
@@ -165,13 +187,17 @@ def oracle(case, out):
     elif want_c is not None and (disposed_at is None or disposed_at > want_c[0]):
         return f"outer and every inner completed at {want_c} but the output did not complete: {got}"
     # (4) subscriptions: only arrived inners, in arrival order (FIFO), at most maxc active at any time
-    subs = [e[1] for e in log if e[0] == "sub" and e[1] != 0]
+    subs = [e[1] for e in log[:end_pos] if e[0] == "sub" and e[1] != 0]
     if subs != arrived[: len(subs)]:
         return f"inners subscribed in order {subs}, arrived in order {arrived}"
+    if case["op"] == "rx_merge":
+        listed = [m_[2] for m_ in case["outer"]["msgs"] if m_[1] == "N"]
+        if arrived != listed[: len(arrived)] or (len(arrived) < len(listed) and not term and not disposed_at):
+            return f"rx.merge was given the sources {listed} (an observable listed twice counts twice) but merged {arrived}"
     if maxc is None and not disposed_at and not term and len(subs) != len(arrived):
         return f"not every arrived inner was subscribed: {subs} of {arrived}"
     active = set()
-    for e in log:
+    for e in log[:end_pos]:
         if e[0] == "sub" and e[1] != 0:
             active.add(e[1])
             if maxc is not None and len(active) > maxc:
@@ -180,7 +206,7 @@ def oracle(case, out):
             active.discard(e[1])
     # (5) with max_concurrent a free slot is filled at once: an arrived inner waits only while maxc others are active
     # (6) concat_map: ordered concatenation
-    if maxc == 1:
+    if maxc == 1 and not any("same_as" in s_ for s_ in case["inners"].values()):
         seq = [cc.sid_of_value(nt[1]) for (_, nt, _) in outs if nt[0] == "N"]
         rank = {k: i for i, k in enumerate(arrived)}
         rs = [rank.get(k, -1) for k in seq]
@@ -216,6 +242,12 @@ def bucket(case, out):
     yield "mapper_raises=" + str("raise_on" in case)
     if case.get("feedback"):
         yield "feedback_reentrant_outer_emission"
+    if case.get("outer", {}).get("mode") == "sync":
+        yield "sync_outer" + ("_oracle_only" if cc.outer_delivers_after_end(case, out["log"]) else "")
+    if any("same_as" in s_ for s_ in case["inners"].values()):
+        yield "same_inner_object_twice"
+    if case.get("maxc", 0) > 256:
+        yield "max_concurrent>256"
     for s in case["inners"].values():
         yield "inner=" + s["mode"] + ("-rude" if s.get("rude") else "")
     if maxc_of(case) is not None:
@@ -228,19 +260,4 @@ def bucket(case, out):
 
 
 def shrink(case):
-    for k in list(case["inners"]):
-        s = case["inners"][k]
-        for j in range(len(s.get("msgs", []))):
-            c = copy.deepcopy(case)
-            del c["inners"][k]["msgs"][j]
-            yield c
-    for j, m in enumerate(case["outer"]["msgs"]):
-        c = copy.deepcopy(case)
-        del c["outer"]["msgs"][j]
-        if m[1] == "N":
-            c["inners"].pop(str(m[2]), None)
-        yield c
-    if case.get("dispose") is not None:
-        c = copy.deepcopy(case)
-        c["dispose"] = None
-        yield c
+    yield from cc.shrink_ho(case)
